@@ -28,7 +28,7 @@ def resume_case(sc):
         def fresh():
             hs.clear()
             for h in ('r1', 'r2', 'u'):
-                hs[h] = sim.handler(h, list(scripts[h]))
+                hs[h] = sim.handler(h, list(scripts[h]), duration=sc.get('hdur', 0))
 
         def mk(h):
             async def fn(**kw):
@@ -60,14 +60,24 @@ def resume_case(sc):
         for (t, what) in sc['env']:
             if what == 'edit':
                 sim.world.at(t, lambda t=t: sim.set_spec('o1', x=t), 1)
+            elif what == 'relist':          # the stream is cut and its resume version is gone (410): the objects are listed again
+                def relist():
+                    for w in [w for w in sim.srv.watches if w.res.plural == PLURAL]: w.end('eof')
+                    if sim.obj('zz') is None: sim.create('zz', {'x': 0})        # a change the stream has not delivered ...
+                    else: sim.set_spec('zz', x=int(sim.now))
+                    sim.srv.compact(sim.things)                                  # ... and its version is compacted away: 410 on resuming
+                sim.world.at(t, relist, 1)
             else:
                 sim.world.at(t, restart, 1)
         sim.run(sc['end'])
         events = []
+        uid1 = (sim.obj('o1') or {}).get('metadata', {}).get('uid')
         for e in sim.recorder.events:
+            if e.get('name') not in (None, 'o1'):
+                continue
             if e['ev'] == 'h.enter' and e.get('id') in ('r1', 'r2'):
                 events.append({'ev': 'inv', 'id': e['id'], 'retry': e.get('retry') or 0, 't': e['t']})
-            elif e['ev'] == 'h.exit' and e.get('id') in ('r1', 'r2') and e.get('outcome') in ('ok', 'temp', 'perm'):
+            elif e['ev'] == 'h.exit' and e.get('id') in ('r1', 'r2') and e.get('outcome') in ('ok', 'temp', 'perm') and e.get('uid') == uid1:
                 events.append({'ev': 'done', 'id': e['id'], 'how': e['outcome'], 't': e['t']})
             elif e['ev'] == 'env.restart':
                 events.append({'ev': 'restart', 't': e['t']})
@@ -86,13 +96,17 @@ def resume_scenarios(seed, n):
     import random
     rnd = random.Random(f'resume2-{seed}')
     out = [{'id': 'resume2-crafted', 'r1': ['ok'], 'r2': ['temp', 'ok'], 'u': ['ok'], 'delay': 6, 'env': [(3, 'edit')], 'end': 40}]
+    # a re-listing whose response is produced while a resume handler is still executing (and consumed after its patch)
+    for k, (d1, d2) in enumerate(((1, 0), (1, 1), (2, 1), (3, 1))):
+        out.append({'id': f'resume2-relist-{k}', 'r1': ['ok'], 'r2': ['ok'], 'u': ['ok'], 'delay': 3, 'hdur': 3,
+                    'env': [(10, 'restart'), (12 + d1, 'relist'), (12 + d1 + 3 + d2, 'relist')], 'end': 60})
     for k in range(n):
         env = []; t = 0
         for _ in range(rnd.randint(1, 5)):
             t += rnd.choice([1, 2, 3, 4, 8])
-            env.append((t, rnd.choice(['edit', 'edit', 'restart'])))
+            env.append((t, rnd.choice(['edit', 'edit', 'restart', 'relist'])))
         out.append({'id': f'resume2-{seed}-{k}', 'r1': rnd.choice([['ok'], ['temp', 'ok']]), 'r2': rnd.choice([['temp', 'ok'], ['temp', 'temp', 'ok'], ['ok'], ['perm']]),
-                    'u': rnd.choice([['ok'], ['temp', 'ok']]), 'delay': rnd.choice([3, 6]), 'env': env, 'end': t + 40})
+                    'u': rnd.choice([['ok'], ['temp', 'ok']]), 'delay': rnd.choice([3, 6]), 'hdur': rnd.choice([0, 0, 2]), 'env': env, 'end': t + 40})
     return out
 
 PROFILES = "resume".split(',')
